@@ -117,6 +117,8 @@ def _worker(args):
                   'anyuniv': anyuniv, 'anyisab': run('*|*:is(%s, %s)' % (A, B)), 'anyisa': run('*|*:is(%s)' % A), 'anyisb': run('*|*:is(%s)' % B),
                   'anynota': run('*|*:not(%s)' % A), 'anynotab': run('*|*:not(%s, %s)' % (A, B)), 'anyisba': run('*|*:is(%s, %s)' % (B, A)),
                   # the same lists with a comment / line break before the comma (CSS-insignificant): no alternative may get lost
+                  # the names of the logical pseudo-classes spelled with escapes (of the upper-case code points too): still :not / :is / :where
+                  'nota_e': run(':n\\4ft(%s)' % A), 'isab_e': run(':\\49 s(%s, %s)' % (A, B)), 'whereab_e': run(':w\\48 ERE(%s, %s)' % (A, B)),
                   'isab_c': run(':is(%s /* c */, %s)' % (A, B)), 'ab_c': run('%s\n/**/ ,\t%s' % (A, B)), 'notab_c': run(':not(%s /**/ ,%s/* c */)' % (A, B)),
                   'A': A, 'B': B, 'doc': '%s#%d' % (parser, d), 'ns': n}
             lines.append(json.dumps(ev))
